@@ -101,7 +101,8 @@ def _case(draw, tier):
     if third and kind != "third":
         doms.pop()
         vars_.pop()
-    sel = draw(st.sampled_from(["entity_e", "e", "p_e", "e_p"]))
+    sel = draw(st.sampled_from(["entity_e", "e", "p_e", "e_p", "entity_e", "e", "p_e", "e_p"]
+                               + (["p_only", "e_attr"] if inner == "kids" and kind not in ("none", "on_p") else [])))
     return {"ents": recs, "doms": doms, "vars": vars_, "inner": inner, "cond": cond, "cond_kind": kind, "select": sel,
             "dom_kind": "list", "split_top": draw(st.booleans())}
 
@@ -143,6 +144,8 @@ def check(case) -> Outcome:
     if len(set(flat_ids)) < len(flat_ids):
         classes.append("overlapping_inners")
     feats = list(classes)
+    if sel == "p_only" and case["cond_kind"] in ("or", "not_and") and any(not i for i in inners):
+        feats.append("parent_only_disjunction_with_empty_inner")
     V, conts = declare_vars(case, objs)
     try:
         with symbolic_mode():
@@ -161,18 +164,48 @@ def check(case) -> Outcome:
                 q = an(set_of([e], *conds))
             elif sel == "p_e":
                 q = an(set_of([p, e], *conds))
-            else:
+            elif sel == "e_p":
                 q = an(set_of([e, p], *conds))
-        res = list(q.evaluate())
-        if sel == "entity_e":
-            got = [(None, r) for r in res]
-        elif sel == "e":
-            got = [(None, r[e]) for r in res]
-        else:
-            got = [(r[p], r[e]) for r in res]
+            elif sel == "p_only":
+                q = an(entity(p, *conds))            # projection onto the parent
+            else:
+                ea = e.a
+                q = an(entity(ea, *conds))           # projection onto an attribute of the flattened element
     except Exception as ex:
-        return fail("exception", f"{type(ex).__name__}: {ex}; expected {show_rows(expected)}", nontrivial=nontrivial,
-                    classes=classes, features=feats)
+        return fail("exception", f"building: {type(ex).__name__}: {ex}", nontrivial=nontrivial, classes=classes,
+                    features=feats)
+    # the same query object is evaluated twice: the second evaluation must satisfy the same oracle (C04/C05 for this family)
+    for attempt in (1, 2):
+        try:
+            res = list(q.evaluate())
+            if sel == "entity_e":
+                got = [(None, r) for r in res]
+            elif sel == "e":
+                got = [(None, r[e]) for r in res]
+            elif sel in ("p_only", "e_attr"):
+                got = [(None, r) for r in res]
+            else:
+                got = [(r[p], r[e]) for r in res]
+        except Exception as ex:
+            return fail("exception", f"evaluation {attempt}: {type(ex).__name__}: {ex}; expected {show_rows(expected)}",
+                        nontrivial=nontrivial, classes=classes, features=feats + [f"evaluation{attempt}"])
+        bad = _compare(case, sel, third, expected, got, cond)
+        if bad:
+            return fail(bad[0] if attempt == 1 else "reevaluation_" + bad[0], f"evaluation {attempt}: {bad[1]}",
+                        nontrivial=nontrivial, classes=classes, features=feats + [f"evaluation{attempt}"])
+    return Outcome(True, nontrivial=nontrivial, classes=classes, features=feats)
+
+
+def _compare(case, sel, third, expected, got, cond):
+    if sel in ("p_only", "e_attr"):
+        # projections: compared as sets (the number of repetitions of a projected row is not asserted, cf. C02)
+        want = {ident((p_,)) if sel == "p_only" else ident((x_.a,)) for p_, x_, _ in expected}
+        have = {ident((v,)) for _, v in got}
+        if want != have:
+            kind = "missing_rows" if want - have else "extra_rows"
+            return kind, (f"select {sel}, inner {case['inner']}, cond {A.r_cond(cond) if cond else None}: expected "
+                          f"{sorted(map(str, want))} got {show_rows(got)}")
+        return None
     # Row key as selected; every DISTINCT assignment (parent, element, third value) must produce its own row.  An element
     # that one inner collection lists twice yields the same assignment twice: those identical rows may be delivered once
     # or once per occurrence (they are not distinguishable assignments), so for them a range of counts is accepted.
@@ -194,10 +227,9 @@ def check(case) -> Outcome:
     else:
         bad_kind = None
     if bad_kind:
-        return fail(bad_kind, f"select {sel}, inner {case['inner']}, cond {A.r_cond(cond) if cond else None}: expected "
-                              f"{show_rows(show_exp)} got {show_rows(got)}", nontrivial=nontrivial, classes=classes,
-                    features=feats)
-    return Outcome(True, nontrivial=nontrivial, classes=classes, features=feats)
+        return bad_kind, (f"select {sel}, inner {case['inner']}, cond {A.r_cond(cond) if cond else None}: expected "
+                          f"{show_rows(show_exp)} got {show_rows(got)}")
+    return None
 
 
 def bucket(case, out):
